@@ -246,7 +246,7 @@ theorem peek2_ascii (s : L) (c d : Nat) (tl : List Nat) (hd : d < 128) (hr : Eca
 /-- a token of `lex input` that is not EOF was pushed by `lexToken` from a token-boundary state -/
 theorem token_generated (input : List Nat) (t : Tok) (ht : t ∈ (lex input).toList) (hne : t.id ≠ tEOF) :
     GenOK input.toArray t := by
-  obtain ⟨body, fin, h1, ⟨_, _, b3⟩, h3⟩ := lex_final input
+  obtain ⟨body, fin, h1, ⟨_, _, b3, _⟩, h3⟩ := lex_final input
   rw [h1] at ht
   rcases List.mem_append.mp ht with ht | ht
   · exact b3 t ht
